@@ -527,3 +527,7 @@ def run(ctx):
     run_accessors(ctx)
     run_wiring(ctx)
     run_projections(ctx)
+    # conversion from bytes: the canonical-range test of every field (strict `< p` over all bytes, masks) is C11's sampling /
+    # decoding rule set, shared here because "conversion to and from bytes agrees with arithmetic modulo p" needs it
+    from rules import c11
+    c11.run_sampling(ctx)
